@@ -46,7 +46,7 @@ CLOSE_POOLS = {
     # large values with relative gaps 1e-6 .. 1e-9
     'big': [2.4e9, 2.4e9 + 2e4, 2.4e9 + 1.0, 2.4e9 * (1 + 1e-9), 2.40001e9, 5.0e9, 5.0e9 + 4e3],
     # neighbouring doubles
-    'ulp': [0.3, 0.30000000000000004, _nx(0.30000000000000004), 0.1 + 0.2, 1.0, _nx(1.0), 100.0, _nx(100.0, 2)],
+    'ulp': [0.3, 0.30000000000000004, _nx(0.3, 2), _nx(0.3, 3), 1.0, _nx(1.0), 100.0, _nx(100.0, 2)],
     # differing beyond the 12th decimal
     'dec13': [1.0000000000001, 1.0000000000002, 0.1234567890123, 0.1234567890124, 7.0000000000001, 7.0],
     # zero and almost zero (a zero test with a threshold would identify them)
